@@ -153,3 +153,11 @@ Theorem C13_matcher_sound : forall c gated evs,
 Proof. exact ParDoMatcher.pardo_accepts_sound. Qed.
 
 Print Assumptions C13_matcher_sound.
+
+(* Tie to the source: the Go functions the model transcribes still contain exactly the synchronisation operations
+   (select arms, channel operations, goroutine starts, timer/context/sync calls) the model accounts for.
+   Generated/Census.v is re-extracted from the Go source on every run (tools/gofacts/census.go). *)
+From Juniper Require Translated.CensusC13.
+Theorem C13_source_census : Translated.CensusC13.census_expected_C13.
+Proof. exact Translated.CensusC13.census_C13_ok. Qed.
+Print Assumptions C13_source_census.
